@@ -115,9 +115,23 @@ func gateCases(r *core.Run) {
 		H1 := pk.committed + 1 + int64(rng.Intn(2))
 		H2 := H1 + 2
 		H3 := a.Height()
-		for ci := 0; ci < 5; ci++ {
-			delay := fixed[ci]
-			if round > 0 {
+		for ci := 0; ci < 7; ci++ {
+			huge := ci >= 5
+			delay := uint64(0)
+			if huge {
+				// delays of centuries (processed time + delay no longer fits 63 bits, for the largest ones not even 64): never
+				// reached, so a proof is refused whenever it is presented
+				below := []uint64{1 << 63, 1<<63 - 1, 8_000_000_000_000_000_000, 15_000_000_000_000_000_000, 1<<63 + uint64(rng.Int63n(1<<62))}
+				beyond := []uint64{^uint64(0), ^uint64(0) - uint64(rng.Intn(1000)), 17_500_000_000_000_000_000}
+				if ci == 5 {
+					delay = below[(round+int(rng.Int63n(2)))%len(below)] // the sum still fits 64 bits
+				} else {
+					delay = beyond[round%len(beyond)] // the sum does not even fit 64 bits
+				}
+			} else {
+				delay = fixed[ci]
+			}
+			if round > 0 && !huge {
 				switch rng.Intn(4) {
 				case 0:
 					delay = uint64(rng.Int63n(int64(10 * time.Second)))
@@ -267,6 +281,13 @@ func gateCases(r *core.Run) {
 				call("delay-passed", mk(H1), proofAt[H1], mustAccept, "same-block", nil)
 			} else {
 				call("delay-not-passed", mk(H1), proofAt[H1], mustReject, "same-block", nil)
+			}
+			if huge {
+				if g.beginB(b.Header.Time.Add(time.Duration(1+rng.Intn(3600)) * time.Second)) {
+					call("delay-not-passed", mk(H1), proofAt[H1], mustReject, "centuries-before", nil)
+				}
+				r.Count("gate_clients_with_a_delay_of_centuries", 1)
+				continue
 			}
 			sweep(H1)
 			if !update(H3, H1) {
